@@ -63,11 +63,6 @@ func start(t *testing.T, prop, rule string) *H {
 		return h
 	}
 	t.Cleanup(func() {
-		for id, n := range h.R.KnownCounts() {
-			if f, ok := h.known[id]; ok && n > 0 {
-				fmt.Printf("KNOWN-FINDING: property=%s %s (%d cases excluded; finding %s)\n", prop, f.Line, n, f.ID)
-			}
-		}
 		if err := h.R.WritePart(); err != nil {
 			t.Errorf("HARNESS-ERROR writing evidence part: %v", err)
 		}
